@@ -239,6 +239,27 @@ func dependsOn(v ssa.Value, target func(ssa.Value) bool) bool {
 				return true
 			}
 		}
+		// through same-package helpers: a helper's parameter depends on what its callers pass; the result of a helper
+		// call depends on what the helper returns
+		if q, ok := v.(*ssa.Parameter); ok && depth < 40 {
+			for _, a := range actualsOf(q) {
+				if a.Parent() != nil && q.Parent() != nil && a.Parent().Pkg == q.Parent().Pkg {
+					if rec(a, depth+10) {
+						return true
+					}
+				}
+			}
+		}
+		if call, ok := v.(*ssa.Call); ok && depth < 40 {
+			n := call.Call.Signature().Results().Len()
+			for i := 0; i < n; i++ {
+				for _, rv := range helperResults(call, i) {
+					if rec(rv, depth+10) {
+						return true
+					}
+				}
+			}
+		}
 		return false
 	}
 	return rec(v, 0)
@@ -312,7 +333,30 @@ func unspill(v ssa.Value) ssa.Value {
 }
 
 func sameParam(v ssa.Value, p *ssa.Parameter) bool {
-	return unspill(stripConv(v)) == ssa.Value(p)
+	return sameParamD(v, p, 0)
+}
+
+// sameParamD also sees through parameters of same-package helpers: a value that is the helper's parameter is "the same" as p
+// when every call site of the helper passes p (code moved verbatim into an extracted function keeps its meaning)
+func sameParamD(v ssa.Value, p *ssa.Parameter, d int) bool {
+	u := unspill(stripConv(v))
+	if u == ssa.Value(p) {
+		return true
+	}
+	q, ok := u.(*ssa.Parameter)
+	if !ok || d > 2 || q.Parent() == p.Parent() {
+		return false
+	}
+	acts := actualsOf(q)
+	if len(acts) == 0 {
+		return false
+	}
+	for _, a := range acts {
+		if !sameParamD(a, p, d+1) {
+			return false
+		}
+	}
+	return true
 }
 
 // retVal resolves the value returned in result slot i, looking through the result cells go/ssa introduces when
